@@ -23,11 +23,21 @@ func workspace(base string, nPkgs, nFiles int) {
 		pkg := fmt.Sprintf("p%d", p)
 		for f := 0; f < nFiles; f++ {
 			var b strings.Builder
-			fmt.Fprintf(&b, "package %s\n\nimport \"strings\"\n\n//bad comment %d\nfunc F%d(IN int, xs []int, s string) (int, bool) {\n", pkg, f, f)
+			fmt.Fprintf(&b, "package %s\n\nimport (\n\t\"regexp\"\n\t\"sort\"\n\t\"strings\"\n)\n\n//bad comment %d\nfunc F%d(IN int, xs []int, s string) (int, bool) {\n", pkg, f, f)
 			b.WriteString("\tif len(xs) >= 0 {\n\t\tIN = IN + 1\n\t}\n")
 			b.WriteString("\tif len(s) == 0 {\n\t\treturn 0, false\n\t} else {\n\t\tif IN > 2 {\n\t\t\treturn 1, !(IN != 3)\n\t\t}\n\t}\n")
 			b.WriteString("\tys := xs[:]\n\t_ = ys\n\treturn IN, strings.Index(s, \"x\") >= 0\n}\n\n")
 			fmt.Fprintf(&b, "type T%d struct{ a [200]byte }\n\nfunc (t T%d) M%d(u T%d) {\n\tswitch x := interface{}(t).(type) {\n\tcase T%d:\n\t\t_ = x\n\t}\n}\n", f, f, f, f, f)
+			// generic code: types whose size cannot be computed (SizeOf's recover path), for every size-based checker
+			for g := 0; g < 6; g++ {
+				fmt.Fprintf(&b, "\nfunc G%d_%d[T any, U comparable](p struct{ v T; w [4]U }, xs []struct{ v T }, arr [3]struct{ u U }) {\n\tfor _, x := range xs {\n\t\t_ = x\n\t}\n\tfor _, y := range arr {\n\t\t_ = y\n\t}\n\t_ = p\n}\n", f, g)
+			}
+			// constant regular expressions (a parser is shared by nothing but one checker instance), sort.Slice, append chains
+			fmt.Fprintf(&b, "\nvar (\n")
+			for g := 0; g < 8; g++ {
+				fmt.Fprintf(&b, "\tre%d_%d = regexp.MustCompile(`^[a%c-%c%c]x{1}(?:ab|ac)[0-9]\\d+[%c%c]$`)\n", f, g, 'a'+rune((p+f+g)%20), 'b'+rune((p+f+g)%20), 'a'+rune((p+f+g)%20), 'a'+rune(g), 'a'+rune(g))
+			}
+			fmt.Fprintf(&b, ")\n\nfunc S%d(xs []int, ys []string) []string {\n\tsort.Slice(xs, func(i, j int) bool { return xs[i] < xs[i] })\n\tys = append(ys, \"a\")\n\tys = append(ys, \"b\")\n\treturn ys\n}\n", f)
 			common.WriteFile(filepath.Join(base, pkg, fmt.Sprintf("f%d.go", f)), b.String())
 		}
 	}
